@@ -1399,6 +1399,7 @@ static void *task_thread(void *p) {
   const Task &t = R.p->tasks[ti];
   for (size_t oi = 0; oi < t.ops.size(); oi++) {
     if (R.v.violated) break;
+    if (R.res && (size_t)ti < R.res->op_starts.size()) R.res->op_starts[(size_t)ti].push_back(fine_local_steps(ti));
     exec_op(R, ti, (int)oi);
     fine_op_boundary();
   }
@@ -1432,6 +1433,7 @@ static void run_fine(Run &R) {
     if (x.task >= 0 && x.task < n) fine_add_preempt(x.task, x.at, x.to);
   std::vector<pthread_t> th(n);
   std::vector<ThreadArg> args(n);
+  if (R.res) R.res->op_starts.assign((size_t)n, std::vector<long>());
   for (int i = 0; i < n; i++) {
     args[i].R = &R;
     args[i].ti = i;
